@@ -512,3 +512,231 @@ fn run_case(seed: u64, idx: usize, thorough: bool, out: &mut Out) {
                           "example_faults": faults.iter().take(3).map(|f| f.to_json()).collect::<Vec<_>>() }));
     }
 }
+
+// ------------------------------------------------------------------------------------------
+// server leg: the same single faults through the real server binary's start-up
+// ------------------------------------------------------------------------------------------
+
+type SM = BTreeMap<u64, (Vec<u32>, BTreeMap<String, String>)>;
+
+fn public_view(m: &Model) -> SM {
+    m.docs
+        .iter()
+        .map(|(id, d)| (id & 0xffff_ffff, (d.bits.clone(), d.meta.iter().filter(|(k, _)| !k.starts_with("__")).map(|(k, v)| (k.clone(), v.clone())).collect())))
+        .collect()
+}
+
+fn srv_census(cl: &mut crate::srv::Cl, ids: &[u64]) -> Result<SM, String> {
+    let mut m = SM::new();
+    for id in ids {
+        let q = cl.query(*id, true, "").map_err(|e| e.to_string())?;
+        if q.found {
+            m.insert(*id, (bits(&q.embedding), q.metadata.iter().filter(|(k, _)| !k.starts_with("__")).map(|(k, v)| (k.clone(), v.clone())).collect()));
+        }
+    }
+    Ok(m)
+}
+
+pub fn run_server(args: &Args) -> Out {
+    use crate::srv::*;
+    let mut out = Out::new("C13", "server-start-up");
+    let Some(bin) = args.get("server").map(|s| s.to_string()) else {
+        out.note("no server binary");
+        return out;
+    };
+    let rt = new_rt();
+    let only: Option<usize> = args.replay.as_ref().and_then(|p| {
+        let v: Value = serde_json::from_str(&std::fs::read_to_string(p).ok()?).ok()?;
+        v["replay"]["case"].as_u64().map(|x| x as usize)
+    });
+    for idx in 0..args.n(32, 320) {
+        if let Some(o) = only {
+            if o != idx {
+                continue;
+            }
+        } else if !args.mine(idx) {
+            continue;
+        }
+        server_case(args.seed, idx, args.thorough, &bin, &rt, &mut out);
+    }
+    out
+}
+
+fn server_case(seed: u64, idx: usize, thorough: bool, bin: &str, rt: &std::sync::Arc<tokio::runtime::Runtime>, out: &mut Out) {
+    use crate::srv::*;
+    use std::collections::HashMap;
+    let mut rng = Rng::derive(seed, idx as u64, 0xC13_5);
+    let dim = 4usize;
+    let cfg = SrvCfg {
+        dim,
+        tenants: vec![TenantSpec { id: "solo".into(), max_vectors: 100_000, max_qps: 0, enabled: true, admin: false }],
+        fsync: "data_only",
+        snapshot_interval: *rng.pick(&[3u64, 5, 9, 1000]),
+        max_wal: *rng.pick(&[300u64, 700, 1 << 20]),
+        ..Default::default()
+    };
+    let desc = json!({"check":"C13","leg":"server-start-up","seed":seed,"case":idx,"snapshot_interval":cfg.snapshot_interval,"max_wal":cfg.max_wal});
+    let mut srv = Srv::new(cfg.clone(), bin, rt.clone());
+    if let Err(e) = srv.start() {
+        out.inconclusive(format!("server start failed: {}", e));
+        return;
+    }
+    let ids: Vec<u64> = (1..=6).collect();
+    let mut model = SM::new();
+    let n = rng.range(12, 40) as usize;
+    let mut cl = match srv.tenant_client("solo") {
+        Ok(c) => c,
+        Err(e) => {
+            out.inconclusive(e);
+            return;
+        }
+    };
+    for k in 0..n {
+        let id = *rng.pick(&ids);
+        match rng.below(12) {
+            0..=5 => {
+                let v = crate::model::gen_unit_vec(&mut rng, dim);
+                let mut md = HashMap::new();
+                md.insert("w".to_string(), k.to_string());
+                if matches!(cl.insert(id, v.clone(), md, ""), Ok(x) if x.success) {
+                    model.insert(id, (bits(&v), [("w".to_string(), k.to_string())].into_iter().collect()));
+                }
+            }
+            6..=7 => {
+                if matches!(cl.delete(id, ""), Ok(x) if x.success) {
+                    model.remove(&id);
+                }
+            }
+            8 => {
+                let mut md = HashMap::new();
+                md.insert("u".to_string(), k.to_string());
+                if matches!(cl.update_metadata(id, md, true, ""), Ok(x) if x.success && x.existed) {
+                    if let Some(d) = model.get_mut(&id) {
+                        d.1.insert("u".to_string(), k.to_string());
+                    }
+                }
+            }
+            9 => {
+                let _ = cl.snapshot("");
+            }
+            10 => {
+                let _ = cl.flush(true);
+            }
+            _ => {
+                // graceful restart
+                let _ = srv.term();
+                if let Err(e) = srv.start() {
+                    out.violation("server-clean-restart-failed", format!("graceful restart failed: {}", e), desc.clone());
+                    return;
+                }
+                cl = match srv.tenant_client("solo") {
+                    Ok(c) => c,
+                    Err(e) => {
+                        out.inconclusive(e);
+                        return;
+                    }
+                };
+            }
+        }
+    }
+    // the model is what the live server reports (vectors as stored)
+    match srv_census(&mut cl, &ids) {
+        Ok(m) if m == model => {}
+        Ok(_) => {
+            out.inconclusive(format!("case {}: live census differs from the acknowledged model (not this leg's subject)", idx));
+            srv.kill9();
+            return;
+        }
+        Err(e) => {
+            out.inconclusive(e);
+            srv.kill9();
+            return;
+        }
+    }
+    let _ = srv.term(); // clean shutdown
+    let dir = srv.data_dir();
+    let Ok(manifest) = Manifest::load(dir.join("MANIFEST")) else {
+        out.inconclusive("MANIFEST unreadable after clean shutdown");
+        return;
+    };
+    // the crate's own readers must reproduce the model from the undamaged directory
+    match reference_replay(&dir, &manifest, None) {
+        Some(m) if public_view(&m) == model => {}
+        _ => {
+            out.inconclusive(format!("case {}: reference replay of the undamaged directory differs from the model", idx));
+            return;
+        }
+    }
+    let newest_n = newest_segment_entries(&dir, &manifest);
+    let newest_name = manifest.wal_segments.last().cloned().unwrap_or_default();
+    let excluded_states: Vec<SM> = (0..newest_n).filter_map(|k| reference_replay(&dir, &manifest, Some(k))).map(|m| public_view(&m)).collect();
+    let mut older_tail_states: Vec<(String, SM)> = Vec::new();
+    for (si, seg) in manifest.wal_segments.iter().enumerate() {
+        if si + 1 == manifest.wal_segments.len() {
+            continue;
+        }
+        let nn = WalReader::open(dir.join(seg)).ok().and_then(|mut r| r.read_all().ok()).map(|e| e.len()).unwrap_or(0);
+        for k in 0..nn {
+            if let Some(m) = reference_replay_limited(&dir, &manifest, Some((si, k))) {
+                older_tail_states.push((seg.clone(), public_view(&m)));
+            }
+        }
+    }
+    let mut faults = enumerate_faults(&dir, &manifest, &mut rng, thorough);
+    // every deletion, then a seeded sample of the rest
+    let (mut chosen, mut rest): (Vec<Fault>, Vec<Fault>) = faults.drain(..).partition(|f| matches!(f, Fault::Delete { .. }));
+    rng.shuffle(&mut rest);
+    chosen.extend(rest.into_iter().take(if thorough { 60 } else { 10 }));
+    let (mut refused, mut intact, mut excluded) = (0u64, 0u64, 0u64);
+    for f in &chosen {
+        let mut s2 = Srv::new(cfg.clone(), bin, rt.clone());
+        let work = s2.data_dir();
+        let _ = std::fs::remove_dir_all(&work);
+        if copy_dir(&dir, &work).is_err() || f.apply(&work).is_err() {
+            continue;
+        }
+        out.eval();
+        out.distinct(&(idx, f.to_json().to_string()));
+        if s2.start().is_err() {
+            refused += 1;
+            continue;
+        }
+        let got = match s2.tenant_client("solo").and_then(|mut c| srv_census(&mut c, &ids)) {
+            Ok(g) => g,
+            Err(e) => {
+                out.inconclusive(format!("census after damaged start failed: {}", e));
+                s2.kill9();
+                continue;
+            }
+        };
+        s2.kill9();
+        if got == model {
+            intact += 1;
+            continue;
+        }
+        if f.file() == newest_name && excluded_states.iter().any(|m| *m == got) {
+            excluded += 1;
+            continue;
+        }
+        let older_tail = older_tail_states.iter().any(|(seg, m)| seg == f.file() && *m == got);
+        let role = file_role(f.file(), &manifest);
+        out.violation(
+            if older_tail { "older-segment-tail-silently-dropped".to_string() } else { format!("server-started-with-damaged-state|{}|{}", role, f.class().split('@').next().unwrap_or("")) },
+            format!(
+                "case {}: after {} ({}) the server STARTS and serves ids {:?} instead of {:?}",
+                idx,
+                f.to_json(),
+                role,
+                got.keys().collect::<Vec<_>>(),
+                model.keys().collect::<Vec<_>>()
+            ),
+            json!({"desc":desc,"fault":f.to_json(),"manifest":{"segments":manifest.wal_segments,"snapshot":manifest.latest_snapshot}}),
+        );
+    }
+    out.count("server_faults_refused", refused);
+    out.count("server_faults_harmless_exact_state", intact);
+    out.count("server_faults_excluded_newest_tail", excluded);
+    if idx % 8 == 0 {
+        out.sample(json!({"case":desc,"faults_tried":chosen.len(),"segments":manifest.wal_segments.len(),"snapshot":manifest.latest_snapshot.is_some()}));
+    }
+}
